@@ -62,6 +62,7 @@ type c04Cfg struct {
 	Caller   bool        `json:"caller"`
 	Gomax    int         `json:"gomax"`
 	Gosched  int         `json:"gosched"`
+	SafeRec  bool        `json:"saferec"`
 }
 
 type c04Act struct {
@@ -120,9 +121,27 @@ type c04Rec struct {
 	syncs   int
 	n       int
 	gosched int
+	safe    *sync.Mutex // non-nil: the recorder serialises its own field accesses (not the Write as a whole), so that
+	// unserialised Writes are observed as a torn stream instead of ending the process with a race report
 }
 
 func (r *c04Rec) Write(p []byte) (int, error) {
+	if r.safe != nil {
+		r.safe.Lock()
+		r.n++
+		n := r.n
+		r.calls = append(r.calls, append([]byte(nil), p...))
+		h := len(p) / 2
+		r.stream = append(r.stream, p[:h]...)
+		r.safe.Unlock()
+		if r.gosched > 0 && n%r.gosched == 0 {
+			runtime.Gosched()
+		}
+		r.safe.Lock()
+		r.stream = append(r.stream, p[h:]...)
+		r.safe.Unlock()
+		return len(p), nil
+	}
 	r.n++
 	r.calls = append(r.calls, append([]byte(nil), p...))
 	h := len(p) / 2
@@ -134,7 +153,14 @@ func (r *c04Rec) Write(p []byte) (int, error) {
 	return len(p), nil
 }
 
-func (r *c04Rec) Sync() error { r.syncs++; return nil }
+func (r *c04Rec) Sync() error {
+	if r.safe != nil {
+		r.safe.Lock()
+		defer r.safe.Unlock()
+	}
+	r.syncs++
+	return nil
+}
 
 type c04RecSink struct{ *c04Rec }
 
@@ -185,6 +211,7 @@ type c04SinkRef struct {
 }
 
 type c04World struct {
+	recNames []string
 	base     *zap.Logger
 	children []*zap.Logger
 	sinks    []*c04SinkRef
@@ -213,8 +240,11 @@ func c04Encoder(kind string) zapcore.Encoder {
 	return zapcore.NewJSONEncoder(cfg)
 }
 
-func c04NewRec(gosched int) (*c04Rec, string) {
+func c04NewRec(gosched int, safe bool) (*c04Rec, string) {
 	r := &c04Rec{gosched: gosched}
+	if safe {
+		r.safe = &sync.Mutex{}
+	}
 	c04RegMu.Lock()
 	c04RegSeq++
 	name := fmt.Sprintf("r%d", c04RegSeq)
@@ -247,6 +277,11 @@ func c04Build(cfg *c04Cfg, oracle bool) *c04World {
 			w.oracleBuf = append(w.oracleBuf, buf)
 			ws = zapcore.AddSync(buf)
 		} else {
+			newRec := func(gosched int) (*c04Rec, string) {
+				rec, name := c04NewRec(gosched, cfg.SafeRec)
+				w.recNames = append(w.recNames, name)
+				return rec, name
+			}
 			add := func(rec *c04Rec, file, mode string, twin int) {
 				w.sinks = append(w.sinks, &c04SinkRef{b: b, j: len(w.sinks), rec: rec, file: file, mode: mode, twin: twin})
 			}
@@ -265,7 +300,7 @@ func c04Build(cfg *c04Cfg, oracle bool) *c04World {
 			}
 			switch br.Sink {
 			case "open":
-				rec, name := c04NewRec(cfg.Gosched)
+				rec, name := newRec(cfg.Gosched)
 				add(rec, "", "lines", -1)
 				ws = open("c04rec://" + name)
 			case "openfile":
@@ -274,30 +309,30 @@ func c04Build(cfg *c04Cfg, oracle bool) *c04World {
 				ws = open(f)
 			case "open2":
 				f := c04TempFile()
-				rec, name := c04NewRec(cfg.Gosched)
+				rec, name := newRec(cfg.Gosched)
 				add(nil, f, "stream", -1)
 				add(rec, "", "lines", -1)
 				ws = open(f, "c04rec://"+name)
 			case "combine":
-				r1, _ := c04NewRec(cfg.Gosched)
-				r2, _ := c04NewRec(0)
+				r1, _ := newRec(cfg.Gosched)
+				r2, _ := newRec(0)
 				add(r1, "", "lines", -1)
 				add(r2, "", "lines", len(w.sinks)-1)
 				ws = zap.CombineWriteSyncers(r1, r2)
 			case "bws":
-				rec, _ := c04NewRec(cfg.Gosched)
+				rec, _ := newRec(cfg.Gosched)
 				add(rec, "", "calls", -1)
 				ws = newBws(rec)
 			case "bwslock":
-				rec, _ := c04NewRec(cfg.Gosched)
+				rec, _ := newRec(cfg.Gosched)
 				add(rec, "", "calls", -1)
 				ws = newBws(zapcore.Lock(rec))
 			case "bwsopen":
-				rec, name := c04NewRec(cfg.Gosched)
+				rec, name := newRec(cfg.Gosched)
 				add(rec, "", "calls", -1)
 				ws = newBws(open("c04rec://" + name))
 			default: // "lock"
-				rec, _ := c04NewRec(cfg.Gosched)
+				rec, _ := newRec(cfg.Gosched)
 				add(rec, "", "lines", -1)
 				ws = zapcore.Lock(rec)
 			}
@@ -323,6 +358,22 @@ func c04Build(cfg *c04Cfg, oracle bool) *c04World {
 		w.children = append(w.children, w.base.With(zap.Int("child", c), zap.String("tag", strings.Repeat("c", c*7))))
 	}
 	return w
+}
+
+func (w *c04World) cleanup() {
+	c04RegMu.Lock()
+	defer c04RegMu.Unlock()
+	for _, n := range w.recNames {
+		delete(c04Reg, n)
+	}
+	for _, s := range w.sinks {
+		if s.file != "" {
+			_ = os.Remove(s.file)
+		}
+	}
+	if c04Dir != "" && os.Remove(c04Dir) == nil { // succeeds only when empty
+		c04Dir = ""
+	}
 }
 
 func (w *c04World) notePanic(e any) {
@@ -735,13 +786,7 @@ func c04Exec(raw json.RawMessage) Result {
 		return concSkipped(shape)
 	}
 	w, timeout, dump := c04RunOnce(&op)
-	defer func() {
-		for _, s := range w.sinks {
-			if s.file != "" {
-				_ = os.Remove(s.file)
-			}
-		}
-	}()
+	defer w.cleanup()
 	if timeout {
 		if child, fine := concRerunAlone("C04", raw); fine {
 			return Result{Impl: child, Oracle: ok(), Nontrivial: true, Shape: shape + "/rerun"}
@@ -804,10 +849,12 @@ func c04Exec(raw json.RawMessage) Result {
 	for _, s := range w.sinks {
 		per := make([][][]byte, len(op.Gs))
 		ids := map[string]string{}
+		allIDs := map[string]string{}
 		for g := range op.Gs {
 			per[g] = [][]byte{}
 			if s.b < len(exp[g]) {
 				for _, l := range exp[g][s.b] {
+					allIDs[string(l.line)] = l.id
 					if passed(l.id) {
 						per[g] = append(per[g], l.line)
 						ids[string(l.line)] = l.id
@@ -835,6 +882,17 @@ func c04Exec(raw json.RawMessage) Result {
 		}
 		valid, class, detail := c04Judge(s.mode, per, calls)
 		lines, _ := c04Cut(bytes.Join(calls, nil))
+		if !valid && class == "torn-line" && op.Cfg.Sampler {
+			// with a sampler the expected set is what the always-enabled recording branch saw: an intact line of an
+			// entry that branch never saw means the tee delivered to one branch and not to the other
+			for _, l := range lines {
+				if id, isEntry := allIDs[string(l)]; isEntry && !passed(id) {
+					class = "tee-branch-incomplete"
+					detail = fmt.Sprintf("entry %s was delivered here but never reached the always-enabled branch of the same tee", id)
+					break
+				}
+			}
+		}
 		if perBranchIDs[s.b] == nil {
 			perBranchIDs[s.b] = map[string]bool{}
 		}
